@@ -4,6 +4,7 @@ import YaegiVerif.Expected.C06
 import YaegiVerif.Generated.C06
 import YaegiVerif.Proofs.C06Dom
 import YaegiVerif.Proofs.C06Sim
+import YaegiVerif.Proofs.C06Hang
 import YaegiVerif.Proofs.C06Recover
 import YaegiVerif.Proofs.C06Lifo
 /-
@@ -26,47 +27,52 @@ theorem extraction_complete : Generated.C06.unrecognised = [] := by decide
 
 /-- tie: the functions and blocks transcribed in Model/Unwind.lean are textually (modulo comments and
     layout) the ones the model was written from (runCfg's deferred function, the defer branches of
-    call/callBin, genBuiltinDeferWrapper, genFunctionWrapper, _recover, _panic, Execute, newFrame, clone);
+    call/callBin, genBuiltinDeferWrapper, genFunctionWrapper, runDeferred, getFunc, _recover, _panic, Execute,
+    newFrame, clone);
     if this breaks the model must be re-validated (the check then relies on the correspondence run) -/
 theorem source_tie : Generated.C06.sourceHashes = Expected.C06.sourceHashes := by decide
 
-/-- The property at full strength (not provable for the unchanged code: see the witnesses below). -/
+/-- The property at full strength over the whole mini-language (not provable for the unchanged code: F06-7,
+    see `held_recover_witness`). -/
 def C06_full_statement : Prop := ∀ (fuel : Nat) (p : Code), runY facts fuel p = Spec.run fuel p
 
 /-- **Deferred calls run exactly once, last-in-first-out, with the arguments of the defer statement, on
-    return and on panic; recover stops a panic exactly where Go says; named results survive; an
-    unrecovered panic comes back from Eval as an error carrying the value** — for every program of the
-    mini-language in `Dom` (no deferred callee that may panic while another deferred call of the same
-    frame is pending; no re-panic of the recovered value), every call depth. Since the repair of F06-1
-    the argument of a defer statement may be any expression of the mini-language, the named result
-    variable included: the three sites copy it when the defer statement executes. -/
+    return and on panic — also when deferred calls panic themselves; recover stops a panic exactly where Go
+    says and returns the very value that was raised; named results survive; an unrecovered panic comes back
+    from Eval as an error carrying that value** — for every program of the mini-language in `Dom`, every call
+    depth. `Dom` excludes one class only, the listed finding F06-7: a deferred function literal held as a value
+    (variable, field, slice element) that calls `recover()` itself. -/
 theorem defer_lifo_exactly_once_partial (fuel : Nat) (p : Code) (h : Dom p = true) :
     runY facts fuel p = Spec.run fuel p := by
-  unfold runY Spec.run
-  simp only [execBodyY, evalArg]
-  rw [execFn_sim fuel p 0 Frame.fresh ⟨[], []⟩ h]
-  have hn := Spec.execFn_none fuel p 0 0 ⟨[], []⟩
-  simp only [Frame.fresh] at hn ⊢
-  generalize Spec.execFn fuel p 0 none 0 ⟨[], []⟩ = r at hn ⊢
-  obtain ⟨sig, c', o', rr, w'⟩ := r
-  simp only at hn
-  subst hn
-  cases sig <;> simp [liftAnc, exitY_expected, runEntriesY, finishY, pendingOf]
+  rw [runY_eq, specRun_eq, execFn_sim fuel p 0 Frame.fresh World.init h]
+  simp only [Frame.fresh]
+  rcases Spec.execFn fuel p 0 none 0 World.init with ⟨sig, c', o', rr, w'⟩
+  rfl
+
+/-- **The same at full strength — no domain** — for every program whose deferred callees are written at their
+    defer statement (function literal, named function, value or pointer method, fmt.Println, delete, the
+    panic builtin): any number of deferred calls may panic, with other deferred calls pending or not, in
+    loops, nested at any depth; recovered values may be re-panicked, compared, type-asserted; `defer panic(v)`
+    is deferred. (Until the repairs of F07, F06-3, F06-4 this needed `Dom` clauses / was outside the language.) -/
+theorem defer_lifo_exactly_once (fuel : Nat) (p : Code) (h : noHeld p = true) :
+    runY facts fuel p = Spec.run fuel p :=
+  defer_lifo_exactly_once_partial fuel p (dom_of_noHeld p h)
 
 /-- the fuel is only a technical bound: with more fuel than the depth of the call tree neither side
-    ever answers `fuel`, so the equation above is about complete executions -/
+    ever stops early, so the equations above are about complete executions -/
 theorem fuel_enough (fuel : Nat) (p : Code) (h : depth p < fuel) :
-    (Spec.run fuel p).status ≠ .fuel ∧ (Dom p = true → (runY facts fuel p).status ≠ .fuel) := by
-  have hs : (Spec.run fuel p).status ≠ .fuel := by
-    unfold Spec.run
-    have := Spec.execFn_enough fuel p 0 none 0 ⟨[], []⟩ h
-    generalize Spec.execFn fuel p 0 none 0 ⟨[], []⟩ = r at this ⊢
+    (Spec.run fuel p).status ≠ .fuel ∧ (Spec.run fuel p).status ≠ .hang ∧
+    (Dom p = true → (runY facts fuel p).status ≠ .fuel) := by
+  have hs : (Spec.run fuel p).status ≠ .fuel ∧ (Spec.run fuel p).status ≠ .hang := by
+    rw [specRun_eq]
+    have := Spec.execFn_enough fuel p 0 none 0 World.init h
+    generalize Spec.execFn fuel p 0 none 0 World.init = r at this ⊢
     obtain ⟨sig, c', o', rr, w'⟩ := r
     cases sig with
     | fuel => exact absurd rfl this
-    | normal => simp
-    | panic v => simp
-  exact ⟨hs, fun hd => by rw [defer_lifo_exactly_once_partial fuel p hd]; exact hs⟩
+    | normal => simp [outcomeOf]
+    | panic v => simp [outcomeOf]
+  exact ⟨hs.1, hs.2, fun hd => by rw [defer_lifo_exactly_once_partial fuel p hd]; exact hs.1⟩
 
 /-- the same statement about the facts regenerated from the repository on this run -/
 theorem defer_lifo_exactly_once_generated (fuel : Nat) (p : Code) (h : Dom p = true) :
@@ -76,37 +82,47 @@ theorem defer_lifo_exactly_once_generated (fuel : Nat) (p : Code) (h : Dom p = t
 /-! ### the domain is not empty, and what it excludes is real -/
 
 /-- a function whose deferred closure recovers and alters the named result; callee defers a native
-    print and a literal with the parameter as argument; nested deferred; a fault as panic source -/
+    print and a literal with the parameter as argument; nested deferred; a fault as panic source; a deferred
+    literal that panics while three other deferred calls are pending; `defer panic`; a literal held in a variable -/
 def exDom : Code :=
   .defer (.recover true (.setOuter 7 .done)) (.lit 0)            -- runs last: recovers, sets r
   (.deferBin "b" .param
+  (.deferVar (.printArg .done) (.lit 4)
+  (.defer (.panic (.int 2) .done) (.lit 0)
+  (.deferPanic (.str "dp")
   (.call (.defer (.printArg .done) (.lit 3) (.print "in" .done)) (.lit 1) true
   (.setRes 5
-  (.panic (.fault .nilMap) (.print "dead" .done)))))
+  (.panic (.fault .nilMap) (.print "dead" .done))))))))
 
-example : Dom exDom = true ∧ mayPanic exDom = true ∧
+example : Dom exDom = true ∧ noHeld exDom = false ∧
     runY facts 5 exDom =
-      ⟨[.print "in", .arg 3, .ret 0, .bin "b" 0, .recd (some (.fault .nilMap))], .ok, true⟩ := by decide
+      ⟨[.print "in", .arg 3, .ret 0, .arg 4, .bin "b" 0, .recd (some (.int 2))], .ok, true⟩ := by decide
 
 def progA : Code := .print "A" .done
 
-/-- F07 `defer A(); defer func(){ panic("B") }(); print("body")` -/
+/-- F07 (fixed) `defer A(); defer func(){ panic("B") }(); print("body")` -/
 def progF07 : Code :=
   .defer progA (.lit 0) (.defer (.panic (.str "B") .done) (.lit 0) (.print "body" .done))
 
-/-- F07: the specification runs A after the deferred literal panicked, the interpreter never does -/
-theorem deferred_panic_witness :
-    Dom progF07 = false ∧
-    runY facts 4 progF07 = ⟨[.print "body"], .panicErr (some (.str "B")), true⟩ ∧
-    Spec.run 4 progF07 = ⟨[.print "body", .print "A"], .panicErr (some (.str "B")), true⟩ := by decide
-
-/-- F07, second face: a recover registered earlier never gets to see the panic of a later deferred call -/
+/-- F07 (fixed), second face: `defer func(){ print(recover()) }(); defer func(){ panic("second") }(); panic("first")` -/
 def progF07rec : Code :=
   .defer (.recover true .done) (.lit 0) (.defer (.panic (.str "second") .done) (.lit 0) (.panic (.str "first") .done))
 
-theorem deferred_panic_recover_witness :
-    runY facts 4 progF07rec = ⟨[], .panicErr (some (.str "second")), true⟩ ∧
+/-- regression for F07 (fixed): A runs after the deferred literal panicked; a recover registered earlier sees the
+    panic of the later deferred call — as the specification says -/
+example :
+    noHeld progF07 = true ∧
+    runY facts 4 progF07 = ⟨[.print "body", .print "A"], .panicErr (some (.str "B")), true⟩ ∧
+    Spec.run 4 progF07 = ⟨[.print "body", .print "A"], .panicErr (some (.str "B")), true⟩ ∧
+    runY facts 4 progF07rec = ⟨[.recd (some (.str "second"))], .ok, true⟩ ∧
     Spec.run 4 progF07rec = ⟨[.recd (some (.str "second"))], .ok, true⟩ := by decide
+
+/-- the fact is load-bearing: with the loop body of before the repair (`val[0].Call(val[1:])` in place) the
+    model skips the pending deferred calls — what the interpreter used to do -/
+example :
+    runY { facts with deferredProtected := false } 4 progF07 = ⟨[.print "body"], .panicErr (some (.str "B")), true⟩ ∧
+    runY { facts with deferredProtected := false } 4 progF07rec = ⟨[], .panicErr (some (.str "second")), true⟩ ∧
+    runY Expected.C06.factsRound1 4 progF07 = ⟨[.print "body"], .panicErr (some (.re (.str "B"))), true⟩ := by decide
 
 /-- F06-1 (fixed) `r = 1; defer fmt.Println("b", r); r = 2` -/
 def progArgRef : Code := .setRes 1 (.deferBin "b" .res (.setRes 2 .done))
@@ -115,12 +131,9 @@ def progArgRef : Code := .setRes 1 (.deferBin "b" .res (.setRes 2 .done))
     `r = 1; defer func(a int) (_ int) { fmt.Println("a", a) }(r); r = 2` -/
 def progArgRefSrc : Code := .setRes 1 (.defer (.printArg .done) .res (.setRes 2 .done))
 
-/-- regression for F06-1 (fixed): the inputs are inside `Dom` now and the deferred calls see the value
-    the variable had at the defer statement (before the repair: `Dom = false`, output `b 2` / `a 2`) -/
+/-- regression for F06-1 (fixed): the deferred calls see the value the variable had at the defer statement -/
 example :
-    Dom progArgRef = true ∧
     (runY facts 3 progArgRef).out = [.bin "b" 1] ∧ (Spec.run 3 progArgRef).out = [.bin "b" 1] ∧
-    Dom progArgRefSrc = true ∧
     (runY facts 3 progArgRefSrc).out = [.arg 1] ∧ (Spec.run 3 progArgRefSrc).out = [.arg 1] := by decide
 
 /-- the fact is load-bearing: the model run with the facts of the source before the repair (the site stores
@@ -136,41 +149,84 @@ theorem defer_arg_fixed_at_statement (n m : Int) (k : Nat) :
     (runY facts (k + 2) (.setRes n (.defer (.printArg .done) .res (.setRes m .done)))).out = [.arg n] := by
   constructor <;> rfl
 
-/-- F06-3 through a re-panic: `defer func(){ if x := recover(); x != nil { panic(x) } }(); panic(143)` —
-    the value Eval reports has been boxed once more (it prints `<int Value>`) -/
+/-- F06-3 (fixed) through a re-panic: `defer func(){ if x := recover(); x != nil { panic(x) } }(); panic(143)` -/
 def progRepanic : Code := .defer (.repanic .done) (.lit 0) (.panic (.int 143) .done)
 
-theorem repanic_value_witness :
-    Dom progRepanic = false ∧
-    (runY facts 3 progRepanic).status = .panicErr (some (.re (.int 143))) ∧
-    (Spec.run 3 progRepanic).status = .panicErr (some (.int 143)) := by decide
+/-- F06-3 (fixed), the replay of the finding: `defer func(){ r := recover(); s, ok := r.(string); … r == "x" }(); panic("x")` -/
+def progRecIs : Code := .defer (.recoverIs (.str "x") .done) (.lit 0) (.panic (.str "x") .done)
+
+/-- regression for F06-3 (fixed): Eval reports 143 itself after the re-panic; the recovered value is the string -/
+example :
+    (runY facts 3 progRepanic).status = .panicErr (some (.int 143)) ∧
+    (Spec.run 3 progRepanic).status = .panicErr (some (.int 143)) ∧
+    runY facts 3 progRecIs = ⟨[.recIs true], .ok, true⟩ ∧ Spec.run 3 progRecIs = ⟨[.recIs true], .ok, true⟩ := by decide
+
+/-- the fact is load-bearing: with `panic(value(f))` the value is a reflect.Value — boxed once when recovered
+    (the comparison fails), twice when re-panicked -/
+example :
+    (runY { facts with panicBoxed := true } 3 progRepanic).status = .panicErr (some (.re (.re (.int 143)))) ∧
+    runY { facts with panicBoxed := true } 3 progRecIs = ⟨[.recIs false], .ok, true⟩ := by decide
+
+/-- F06-4 (fixed) `defer func(){ fmt.Println("rec", recover()) }(); defer panic("dp"); fmt.Println("body")` -/
+def progDeferPanic : Code :=
+  .defer (.recover true .done) (.lit 0) (.deferPanic (.str "dp") (.print "body" .done))
+
+/-- regression for F06-4 (fixed): the body goes on after `defer panic`, the panic is raised when the deferred
+    calls run and the function deferred earlier recovers it; before the repair the builtin ran at the statement -/
+example :
+    runY facts 3 progDeferPanic = ⟨[.print "body", .recd (some (.str "dp"))], .ok, true⟩ ∧
+    Spec.run 3 progDeferPanic = ⟨[.print "body", .recd (some (.str "dp"))], .ok, true⟩ ∧
+    runY { facts with panicDeferrable := false } 3 progDeferPanic = ⟨[.recd (some (.str "dp"))], .ok, true⟩ := by decide
+
+/-- F06-2 (fixed) `h := func(){ fmt.Println("h") }; defer h(); fmt.Println("body")` -/
+def progHeld : Code := .deferVar (.print "h" .done) (.lit 0) (.print "body" .done)
+
+/-- … and with a panic in flight, recovered by a function deferred earlier, the held literal altering the result -/
+def progHeldPanic : Code :=
+  .call (.defer (.recover true .done) (.lit 0) (.deferVar (.setOuter 9 .done) (.lit 0) (.panic (.str "x") .done)))
+    (.lit 0) true .done
+
+/-- regression for F06-2 (fixed): Eval returns; before the repair (frame lock held around the deferred calls) the
+    wrapper of the held literal blocked on it after the call: the output stops after `h`, Eval never returns -/
+example :
+    runY facts 3 progHeld = ⟨[.print "body", .print "h"], .ok, true⟩ ∧
+    Spec.run 3 progHeld = ⟨[.print "body", .print "h"], .ok, true⟩ ∧
+    runY facts 4 progHeldPanic = ⟨[.recd (some (.str "x")), .ret 9], .ok, true⟩ ∧
+    Spec.run 4 progHeldPanic = ⟨[.recd (some (.str "x")), .ret 9], .ok, true⟩ ∧
+    runY { facts with exitSteps := [.lock, .assignRecovered, .runDeferred, .ifRecovered, .unlock] } 3 progHeld =
+      ⟨[.print "body", .print "h"], .hang, false⟩ := by decide
+
+/-- F06-7 (open) `h := func(){ fmt.Println("rec", recover()) }; defer h(); panic("x")` -/
+def progHeldRec : Code := .deferVar (.recover true .done) (.lit 0) (.panic (.str "x") .done)
+
+/-- F06-7: the held literal's frame hangs off the copy of the defining frame made when the literal was evaluated —
+    its recover() finds no panic there; the specification makes no difference between a literal written at the
+    defer statement and one held in a variable -/
+theorem held_recover_witness :
+    Dom progHeldRec = false ∧
+    runY facts 3 progHeldRec = ⟨[.recd none], .panicErr (some (.str "x")), true⟩ ∧
+    Spec.run 3 progHeldRec = ⟨[.recd (some (.str "x"))], .ok, true⟩ := by decide
 
 theorem C06_full_statement_fails : ¬ C06_full_statement := by
   intro h
-  have := h 4 progF07
+  have := h 3 progHeldRec
   revert this
   decide
 
-/-! ### Eval never lets a panic escape, and the interpreter stays usable — for ALL programs -/
+/-! ### Eval always returns, never lets a panic escape, and the interpreter stays usable — for ALL programs -/
 
-/-- **A panic never escapes Eval and the interpreter remains usable**, whatever the script does: for every
-    program (inside or outside `Dom`, F07 included) and every call depth, the modelled `Eval` returns
-    (no host crash) and leaves the root frame unlocked. -/
+/-- **Eval returns, a panic never escapes it and the interpreter remains usable**, whatever the script does: for
+    every program (inside or outside `Dom`) and every call depth, the modelled `Eval` does not block on a frame
+    lock (F06-2), returns without a host crash, and leaves the root frame unlocked. -/
 theorem eval_never_crashes (fuel : Nat) (p : Code) :
-    (runY facts fuel p).status ≠ .crash ∧ (runY facts fuel p).reusable = true := by
-  unfold runY
-  simp only [execBodyY, evalArg]
-  have ha := execFnY_anc facts fuel p 0 Frame.fresh ⟨[], []⟩
-  generalize execFnY facts fuel p 0 Frame.fresh ⟨[], []⟩ = r at ha ⊢
+    (runY facts fuel p).status ≠ .crash ∧ (runY facts fuel p).status ≠ .hang ∧
+    (runY facts fuel p).reusable = true := by
+  rw [runY_eq]
+  have hh := execFnY_nohang fuel p 0 Frame.fresh World.init rfl
+  generalize execFnY facts fuel p 0 Frame.fresh World.init = r at hh ⊢
   obtain ⟨sig, root, rr, w'⟩ := r
-  obtain ⟨rd, rrec, rres, rl⟩ := root
-  simp only [Frame.fresh] at ha
-  obtain ⟨h1, h2⟩ := ha
-  subst h1; subst h2
-  cases sig with
-  | fuel => simp [exitY_expected]
-  | normal => cases rrec <;> simp [exitY_expected, runEntriesY, finishY, pendingOf]
-  | panic v => cases rrec <;> simp [exitY_expected, runEntriesY, finishY, pendingOf]
+  simp only at hh
+  cases sig <;> simp [outcomeOf, hh]
 
 /-- **An unrecovered panic is returned by Eval as an error carrying the original value** (and the output
     up to that point is the specified one, and the interpreter is reusable) — on `Dom`. -/
@@ -179,9 +235,45 @@ theorem eval_returns_panic (fuel : Nat) (p : Code) (v : Val) (h : Dom p = true)
     (runY facts fuel p).status = .panicErr (some v) ∧ (runY facts fuel p).reusable = true ∧
     (runY facts fuel p).out = (Spec.run fuel p).out := by
   rw [defer_lifo_exactly_once_partial fuel p h]
-  exact ⟨hp, (defer_lifo_exactly_once_partial fuel p h ▸ (eval_never_crashes fuel p).2), rfl⟩
+  exact ⟨hp, (defer_lifo_exactly_once_partial fuel p h ▸ (eval_never_crashes fuel p).2.2), rfl⟩
 
 /-! ### recover, named results: schematic programs, all values -/
+
+/-- **recover() returns the value the panic was raised with — the value itself, not something that prints like
+    it**: for every raised value `v` and every value `v'` it is compared with (type assertion and `==`), the
+    comparison in the recovering deferred function holds exactly when `v = v'`; and the value printed is `v`. -/
+theorem recover_returns_panic_value (v v' : Val) (n : Nat) :
+    runY facts (n + 3) (.defer (.recoverIs v' .done) (.lit 0) (.panic v .done)) = ⟨[.recIs (decide (v = v'))], .ok, true⟩ ∧
+    runY facts (n + 3) (.defer (.recover true .done) (.lit 0) (.panic v .done)) = ⟨[.recd (some v)], .ok, true⟩ := by
+  refine ⟨?_, rfl⟩
+  show (⟨[.recIs (decide (some v = some v'))], .ok, true⟩ : Outcome) = _
+  simp
+
+/-- **a re-panic keeps the value**: `defer func(){ if x := recover(); x != nil { panic(x) } }()` — once, or twice
+    nested — hands the value of the original panic to Eval, for every value -/
+theorem repanic_keeps_value (v : Val) (n : Nat) :
+    runY facts (n + 3) (.defer (.repanic .done) (.lit 0) (.panic v .done)) = ⟨[], .panicErr (some v), true⟩ ∧
+    runY facts (n + 4) (.defer (.repanic .done) (.lit 0)
+        (.call (.defer (.repanic .done) (.lit 0) (.panic v .done)) (.lit 0) false .done)) =
+      ⟨[], .panicErr (some v), true⟩ := by
+  constructor <;> rfl
+
+/-- **a panic raised by a deferred call replaces the current one, and the deferred calls still pending run**:
+    `defer func(){ fmt.Println("rec", recover()) }(); defer fmt.Println("b", 0); defer func(){ panic(q) }(); panic(v)`
+    prints `b 0`, recovers `q` — for all values -/
+theorem deferred_panic_replaces (v q : Val) (n : Nat) :
+    runY facts (n + 3) (.defer (.recover true .done) (.lit 0) (.deferBin "b" (.lit 0)
+        (.defer (.panic q .done) (.lit 0) (.panic v .done)))) =
+      ⟨[.bin "b" 0, .recd (some q)], .ok, true⟩ := by rfl
+
+/-- **`defer panic(q)` is deferred**: the body goes on, the panic is raised when the deferred calls run (replacing
+    a panic of the body), the deferred calls registered earlier run and may recover it — for all values -/
+theorem defer_panic_is_deferred (v q : Val) (n : Nat) :
+    runY facts (n + 3) (.defer (.recover true .done) (.lit 0) (.deferPanic q (.print "body" .done))) =
+      ⟨[.print "body", .recd (some q)], .ok, true⟩ ∧
+    runY facts (n + 3) (.deferBin "b" (.lit 0) (.deferPanic q (.print "body" (.panic v .done)))) =
+      ⟨[.print "body", .bin "b" 0], .panicErr (some q), true⟩ := by
+  constructor <;> rfl
 
 /-- a function that sets r := r0, panics with v, and whose deferred literal recovers and sets r := m,
     called by a function that prints the result -/
@@ -223,14 +315,19 @@ theorem recover_direct_gets_value (v : Val) (n : Nat) :
     written in a function reached by an ordinary call (a helper, also one called by a deferred function,
     at any depth), then no `recover()` ever returns a non-nil value (so no panic is ever stopped). -/
 theorem recover_direct_only (fuel : Nat) (p : Code) (h : helperOnly p true = true) :
-    ∀ e ∈ (runY facts fuel p).out, ∀ v, e ≠ .recd (some v) := by
+    ∀ e ∈ (runY facts fuel p).out, (∀ v, e ≠ .recd (some v)) ∧ e ≠ .recIs true := by
   rw [out_of_runY]
-  have hi := (execFnY_helper fuel p 0 Frame.fresh ⟨[], []⟩ true h (fun _ => rfl) rfl).1
-  intro e he v hv
+  have hi := (execFnY_helper fuel p 0 Frame.fresh World.init true h (fun _ => rfl) rfl).1
+  intro e he
   simp only [noSome, List.all_eq_true] at hi
   have := hi e he
-  subst hv
-  simp [Event.notRecovered] at this
+  constructor
+  · intro v hv
+    subst hv
+    simp [Event.notRecovered] at this
+  · intro hv
+    subst hv
+    simp [Event.notRecovered] at this
 
 /-- non-vacuity: helpers with recover under a deferred function of a panicking function -/
 example : helperOnly (.defer (.call (.recover true .done) (.lit 0) false (.print "d" .done)) (.lit 0)
@@ -242,19 +339,34 @@ example : helperOnly (.defer (.call (.recover true .done) (.lit 0) false (.print
     the list reversed — in the specification and (by the refinement theorem) in the interpreter. -/
 theorem lifo_on_return (ts : List String) (n : Nat) :
     runY facts (n + 1) (deferAll ts .done) = ⟨(ts.reverse.map fun t => Event.bin t 0), .ok, true⟩ := by
-  rw [defer_lifo_exactly_once_partial _ _ (dom_deferAll .done (fun _ => rfl) ts false)]
+  rw [defer_lifo_exactly_once _ _ (noHeld_deferAll .done rfl ts)]
   simp only [Spec.run, Spec.execFn, spec_body_deferAll, Spec.execBody, pendingOf, List.append_nil]
   rw [← List.map_reverse, spec_runDefers_bins]
-  simp [Spec.finish]
+  simp [Spec.finish, World.init]
 
 /-- **… and on panic**: the same deferred calls run, in the same order, exactly once, and the panic value
     reaches Eval unchanged — for every list and every value. -/
 theorem lifo_on_panic (ts : List String) (v : Val) (n : Nat) :
     runY facts (n + 1) (deferAll ts (.panic v .done)) =
       ⟨(ts.reverse.map fun t => Event.bin t 0), .panicErr (some v), true⟩ := by
-  rw [defer_lifo_exactly_once_partial _ _ (dom_deferAll (.panic v .done) (fun _ => rfl) ts false)]
+  rw [defer_lifo_exactly_once _ _ (noHeld_deferAll (.panic v .done) rfl ts)]
   simp only [Spec.run, Spec.execFn, spec_body_deferAll, Spec.execBody, pendingOf, List.append_nil]
   rw [← List.map_reverse, spec_runDefers_bins]
-  simp [Spec.finish]
+  simp [Spec.finish, World.init]
+
+/-- **… and when one of the deferred calls panics itself**, with any number of deferred calls registered before
+    and after it: every one of them still runs exactly once, in order, and the value of the last panic raised
+    is the one Eval reports — for all lists and values. -/
+theorem lifo_when_deferred_call_panics (ts us : List String) (v q : Val) (n : Nat) :
+    runY facts (n + 2) (deferAll ts (.defer (.panic q .done) (.lit 0) (deferAll us (.panic v .done)))) =
+      ⟨((us.reverse ++ ts.reverse).map fun t => Event.bin t 0), .panicErr (some q), true⟩ := by
+  rw [defer_lifo_exactly_once _ _ (noHeld_deferAll _ (by
+    simpa [noHeld] using noHeld_deferAll (.panic v .done) rfl us) ts)]
+  simp only [Spec.run, Spec.execFn, spec_body_deferAll, Spec.execBody, Spec.push, Spec.evalArg, pendingOf,
+    List.append_nil]
+  rw [← List.map_reverse, spec_runDefers_bins_app]
+  simp only [Spec.runDefers, Spec.execBody, Spec.finish]
+  rw [← List.map_reverse, spec_runDefers_bins]
+  simp [World.init]
 
 end YaegiVerif.Props.C06
